@@ -11,6 +11,7 @@ INVARIANT JoinInv
 INVARIANT SplitJoin
 INVARIANT ReverseResult
 INVARIANT Laws
+INVARIANT TemplateLaw
 INVARIANT ExportCase
 PROPERTY ReplaceProgress
 CHECK_DEADLOCK FALSE
